@@ -42,12 +42,52 @@ def run(ctx):
                 racelike.rule_win(ctx, M, u, "C17.WIN", ("Ready", "Some"), "Ready(Some)")
                 c20.rule_cont(ctx, M, u)
                 c01.rule_rearm(ctx, u)
+        rule_who(ctx, M, units)
         na = 1 if cfg == "core" else 2
         ctx.floor("C17.ROT", cfg, 3)
         ctx.floor("C17.USE", cfg, 12 + na)
         ctx.floor("C17.WIN", cfg, 2 * (78 + na))
         ctx.floor("C17.REARM", cfg, 78 + na)
     return {}
+
+
+def rule_who(ctx, M, units):
+    """The rotation state is touched only by Indexer::{new, iter}: no poll body replaces or rewinds
+    its indexer, nothing outside the Indexer impl writes offset/max, and Indexer::new is called only
+    by constructors."""
+    F = M.F
+    ctor_defs = set()
+    for m in M.members:
+        for b in (m.ctor, m.new):
+            if b is not None:
+                ctor_defs.add(b.def_)
+    n_new = 0
+    n_bodies = 0
+    for x in F.bodies:
+        if x.kind in ("Const", "AnonConst"):
+            continue
+        n_bodies += 1
+        xi = M.info(x)
+        in_indexer = x.impl_self is not None and (M.adt_of_type(x.impl_self) or "").endswith("indexer::Indexer")
+        for s in xi.sites:
+            if s.callee.owner == "Indexer" and s.callee.name not in ("new", "iter"):
+                ctx.fail("C17.USE", x.def_, "the rotation state is manipulated through Indexer::%s" % s.callee.name, site=s.where)
+            if s.key == ("Indexer", "new"):
+                n_new += 1
+                if x.def_ not in ctor_defs and not in_indexer:
+                    ctx.fail("C17.USE", x.def_, "Indexer::new is called outside a constructor (the rotation would restart)", site=s.where)
+        for blk, pt, v, sp in scan.field_writes(xi):
+            path = []
+            t = pt
+            while t[0] in ("field", "index", "variant"):
+                path.append(t[2])
+                t = t[1]
+            if "indexer" in path and not in_indexer:
+                ctx.fail("C17.USE", x.def_, "a body outside Indexer writes the combinator's `indexer` field", site=sp)
+            if in_indexer and x.name not in ("new", "iter") and path and path[-1] in ("offset", "max"):
+                ctx.fail("C17.USE", x.def_, "Indexer.%s is written outside new/iter" % path[-1], site=sp)
+    ctx.require(n_new >= 12, "positive control: Indexer::new sites in constructors (%d)" % n_new)
+    ctx.ok("C17.USE", "<crate>", "rotation state touched only by Indexer::{new (in constructors, %d sites), iter}; %d bodies scanned" % (n_new, n_bodies))
 
 
 def rule_use(ctx, M, u):
